@@ -1,11 +1,17 @@
+import Mathlib.Data.Complex.Basic
+import Mathlib.Tactic.FinCases
 import PyPhysim.Proofs.C20GmdInvInit
 
 /-!
-# `gmd` — correctness of the array model (real case)
+# `gmd` — correctness of the array model, for real and for complex matrices
 
-`gmd_sound`: for every full SVD with positive non-increasing singular values and `σ̄` their
-geometric mean the executable model `gmd` returns `.ok (Q, R, P, _)` with `Q R Pᵀ = U Σ Vᵀ`,
-orthonormal `Q`, `P`, upper-triangular `R` with constant diagonal `σ̄`.
+`gmd_sound`: scalars `K` as in `RealLike` (a field with conjugation containing the reals, on
+which conjugation, `sqrt` and `≤` are the real ones).  For every full SVD `A = U Σ Vᴴ` over `K`
+(unitary `U`, `V`; real, positive, non-increasing singular values; `σ̄` their geometric mean) the
+executable model `gmd` returns `.ok (Q, R, P, _)` with `Q R Pᴴ = U Σ Vᴴ`, `Qᴴ Q = 1`, `Pᴴ P = 1`,
+upper-triangular `R` with constant diagonal `σ̄`.
+`realLike_real`, `realLike_complex`: `ℝ` (with `ι = id`) and `ℂ` (with the coercion, the model's
+`RSqrt ℂ` and the comparison of real parts `leRe`, as in the compiled driver) are such scalars.
 -/
 set_option linter.unusedSectionVars false
 set_option linter.unusedVariables false
@@ -13,41 +19,46 @@ set_option linter.unusedSimpArgs false
 namespace PyPhysim.LinAlg.GmdInv
 open PyPhysim.Proto PyPhysim.LinAlg Matrix
 
-theorem orth_to_eye {m : Nat} (Q : Array (Array ℝ)) (h : Orth (colv m (entryCols Q))) :
+section generic
+variable {K : Type} [Field K] [StarRing K] [RSqrt K] [LE K] [DecidableLE K]
+
+theorem orth_to_eye {m : Nat} (Q : Array (Array K)) (h : Orth (colv m (entryCols Q))) :
     matMul (cT (fun (i j : Fin m) => entryCols Q i.val j.val)) (fun (i j : Fin m) => entryCols Q i.val j.val)
       = eye := by
   funext a b
   have := h a.val b.val a.isLt b.isLt
-  simp only [matMul, cT, eye, sumFin_eq, Conj.conj, star_trivial]
-  have e : (if a = b then (1 : ℝ) else 0) = if a.val = b.val then 1 else 0 := by
+  simp only [matMul, cT, eye, sumFin_eq, Conj.conj]
+  have e : (if a = b then (1 : K) else 0) = if a.val = b.val then 1 else 0 := by
     simp only [Fin.ext_iff]
   rw [e]
   exact this
 
-theorem eye_to_orthT {m : Nat} (U : Mat ℝ m m) (hU : matMul (cT U) U = eye) : (toM U)ᵀ * toM U = 1 := by
+theorem eye_to_orthH {m : Nat} (U : Mat K m m) (hU : matMul (cT U) U = eye) : (toM U)ᴴ * toM U = 1 := by
   to_matrix at hU
-  rw [Matrix.conjTranspose_eq_transpose_of_trivial] at hU
   exact hU
 
-theorem gmd_sound (m n : Nat) (U : Mat ℝ m m) (V : Mat ℝ n n) (S : Fin (min m n) → ℝ) (sb : ℝ)
+theorem gmd_sound {ι : ℝ →+* K} (hι : RealLike ι) (m n : Nat) (U : Mat K m m) (V : Mat K n n)
+    (S : Fin (min m n) → ℝ) (sb : ℝ)
     (hp : 0 < min m n) (hU : matMul (cT U) U = eye) (hV : matMul (cT V) V = eye)
     (hS : ∀ i, 0 < S i) (hmono : ∀ i j, i ≤ j → S j ≤ S i) (hsb : 0 < sb)
     (hprod : sb ^ (min m n) = ∏ i, S i) :
-    ∃ Q R P mg, gmd m n (min m n) sb (colsOf U) (Array.ofFn S) (colsOf V) = .ok (Q, R, P, mg) ∧
-      (let Qm : Mat ℝ m m := fun i j => entryCols Q i.val j.val
-       let Rm : Mat ℝ m n := fun i j => entryRows R i.val j.val
-       let Pm : Mat ℝ n n := fun i j => entryCols P i.val j.val
-       matMul (matMul Qm Rm) (cT Pm) = matMul (matMul U (sigmaMat S)) (cT V) ∧
+    ∃ Q R P mg, gmd m n (min m n) (ι sb) (colsOf U) (Array.ofFn (fun i => ι (S i))) (colsOf V)
+        = .ok (Q, R, P, mg) ∧
+      (let Qm : Mat K m m := fun i j => entryCols Q i.val j.val
+       let Rm : Mat K m n := fun i j => entryRows R i.val j.val
+       let Pm : Mat K n n := fun i j => entryCols P i.val j.val
+       matMul (matMul Qm Rm) (cT Pm) = matMul (matMul U (sigmaMat (fun i => ι (S i)))) (cT V) ∧
        matMul (cT Qm) Qm = eye ∧ matMul (cT Pm) Pm = eye ∧
        (∀ i j, j.val < i.val → Rm i j = 0) ∧
-       (∀ i j, i.val = j.val → i.val < min m n → Rm i j = sb)) := by
-  have hU' := eye_to_orthT U hU
-  have hV' := eye_to_orthT V hV
+       (∀ i j, i.val = j.val → i.val < min m n → Rm i j = ι sb)) := by
+  have hU' := eye_to_orthH U hU
+  have hV' := eye_to_orthH V hV
   have hpm : min m n ≤ m := Nat.min_le_left m n
   have hpn : min m n ≤ n := Nat.min_le_right m n
-  obtain ⟨R0, hR0, hR0s, hR0row, hR0z⟩ := initR_ok m n (min m n) (Array.ofFn S) hp hpm hpn (by simp)
-  have sh0 := init_shape m n (min m n) R0 U V S hR0s hR0row
-  have inv0 := init_inv m n R0 U V S sb hp hU' hV' hS hprod hR0z
+  obtain ⟨R0, hR0, hR0s, hR0row, hR0z⟩ :=
+    initR_ok m n (min m n) (Array.ofFn (fun i => ι (S i))) hp hpm hpn (by simp)
+  have sh0 := init_shape m n (min m n) R0 U V (fun i => ι (S i)) hR0s hR0row
+  have inv0 := init_inv ι m n R0 U V S sb hp hU' hV' hS hprod hR0z
   have Spos : ∀ r, r < min m n → 0 < Sx S r := by
     intro r hr; unfold Sx; simp only [hr, dif_pos]; exact hS _
   have Smono : ∀ r r', r ≤ r' → r' < min m n → Sx S r' ≤ Sx S r := by
@@ -55,19 +66,20 @@ theorem gmd_sound (m n : Nat) (U : Mat ℝ m m) (V : Mat ℝ n n) (S : Fin (min 
     have hr : r < min m n := by omega
     unfold Sx; simp only [hr, hr', dif_pos]
     exact hmono _ _ hrr
-  obtain ⟨st, hst, sh, inv⟩ := sweep_ok m n (min m n) _ (Sx S) sb _ sh0 inv0 hpm hpn hsb Spos Smono
+  obtain ⟨st, hst, sh, inv⟩ := sweep_ok hι m n (min m n) _ (Sx S) sb _ sh0 inv0 hpm hpn hsb Spos Smono
     (min m n - 1) (le_refl _)
-  obtain ⟨R', hfin, hR'⟩ := finish_ok m n (min m n) sb st sh hp hpm hpn
+  obtain ⟨R', hfin, hR'⟩ := finish_ok m n (min m n) (ι sb) st sh hp hpm hpn
   obtain ⟨f1, f2, f3⟩ := inv.final hp hpm hpn (entryRows R') hR'
   refine ⟨st.Q, R', st.P, st.margin, ?_, ?_⟩
-  · rw [gmd_eq m n (min m n) sb _ _ _ hp, hR0, ok_bind, hst, ok_bind, hfin]
+  · rw [gmd_eq m n (min m n) (ι sb) _ _ _ hp, hR0, ok_bind, hst, ok_bind, hfin]
   · have oQ : Orth (colv m (entryCols st.Q)) := inv.mi.oQ
     have oP : Orth (colv n (entryCols st.P)) := inv.mi.oP
     have ePP := orth_to_eye st.P oP
     refine ⟨?_, orth_to_eye st.Q oQ, ePP, ?_, ?_⟩
-    · have ePP' := eye_to_orthT _ ePP
+    · have ePP' := eye_to_orthH _ ePP
       have ePP'' := _root_.mul_eq_one_comm.mp ePP'
-      have key : (toM U * toM (sigmaMat S) * (toM V)ᵀ) * toM (fun (i j : Fin n) => entryCols st.P i.val j.val)
+      have key : (toM U * toM (sigmaMat (fun i => ι (S i))) * (toM V)ᴴ) *
+            toM (fun (i j : Fin n) => entryCols st.P i.val j.val)
           = toM (fun (i j : Fin m) => entryCols st.Q i.val j.val) *
             toM (fun (i : Fin m) (j : Fin n) => entryRows R' i.val j.val) := by
         ext i b
@@ -78,14 +90,30 @@ theorem gmd_sound (m n : Nat) (U : Mat ℝ m m) (V : Mat ℝ n n) (S : Fin (min 
         simp only [Matrix.of_apply]
         exact this.trans (Finset.sum_congr rfl (fun a _ => mul_comm _ _))
       to_matrix
-      rw [Matrix.conjTranspose_eq_transpose_of_trivial, Matrix.conjTranspose_eq_transpose_of_trivial,
-        ← key, Matrix.mul_assoc _ _ (toM _)ᵀ, ePP'', Matrix.mul_one]
+      rw [← key, Matrix.mul_assoc _ _ (toM _)ᴴ, ePP'', Matrix.mul_one]
     · intro i j hji
       exact f2 i.val j.val hji
     · intro i j hij hi
-      show entryRows R' i.val j.val = sb
+      show entryRows R' i.val j.val = ι sb
       rw [← hij]
       exact f3 i.val hi
+
+end generic
+
+/-- `ℝ` is `RealLike` through the identity -/
+theorem realLike_real : RealLike (RingHom.id ℝ) :=
+  ⟨fun x => star_trivial x, fun x => rfl, fun x y => Iff.rfl⟩
+
+/-- comparison of the real parts: the order the complex instantiation of the model uses
+    (`instance : LE CF := ⟨fun a b => a.re ≤ b.re⟩` in `Drivers/C20.lean`) -/
+@[reducible] def leRe : LE ℂ := ⟨fun a b => a.re ≤ b.re⟩
+@[reducible] noncomputable def decLeRe : @DecidableLE ℂ leRe := fun a b => inferInstanceAs (Decidable (a.re ≤ b.re))
+
+/-- `ℂ` with the coercion, the model's `RSqrt ℂ` and `leRe` is `RealLike` -/
+theorem realLike_complex : @RealLike ℂ _ _ _ leRe Complex.ofRealHom :=
+  @RealLike.mk ℂ _ _ _ leRe Complex.ofRealHom (fun x => Complex.conj_ofReal x)
+    (fun x => by show ((Real.sqrt (Complex.ofReal x).re : ℝ) : ℂ) = _; rw [Complex.ofReal_re]; rfl)
+    (fun x y => by show (Complex.ofReal x).re ≤ (Complex.ofReal y).re ↔ x ≤ y; simp)
 
 /-- example input: singular values `(4, 1)` -/
 def exS : Fin (min 2 2) → ℝ := fun i => if i.val = 0 then 4 else 1
@@ -107,5 +135,13 @@ theorem ex_hyps : 0 < min 2 2 ∧ matMul (cT (eye : Mat ℝ 2 2)) eye = eye ∧
   · show (2 : ℝ) ^ 2 = ∏ i : Fin 2, exS i
     rw [Fin.prod_univ_two]
     simp [exS]; norm_num
+
+
+/-- example complex unitary factor: `i · 1` -/
+noncomputable def exU : Mat ℂ 2 2 := fun i j => if i = j then Complex.I else 0
+
+theorem exU_unitary : matMul (cT exU) exU = eye := by
+  funext i j
+  fin_cases i <;> fin_cases j <;> simp [matMul, cT, exU, eye, sumFin, Conj.conj]
 
 end PyPhysim.LinAlg.GmdInv
